@@ -302,6 +302,7 @@ func (down *rtpDownTrack) Write(buf []byte) (int, error) {
 		(flags.Sid < layer.sid && flags.SidNonReference) {
 		ok := down.packetmap.Drop(flags.Seqno, flags.Pid)
 		if ok {
+			verifTraceDown(down, VerifTraceWithheld, flags.Seqno)
 			return 0, nil
 		}
 	}
